@@ -325,19 +325,36 @@ func c17IPP(c *Ctx) {
 	}
 	// decode side: allocs in group.decode under (vtag == k)
 	dec := map[int64]string{}
-	for _, b := range gd.Blocks {
-		for _, in := range b.Instrs {
-			a, ok := in.(*ssa.Alloc)
-			if !ok {
-				continue
+	// the tag-to-type switch may live in group.decode itself or in a helper it calls (newValueType(vtag))
+	decFns := map[*ssa.Function]bool{gd: true}
+	for _, call := range Calls(gd) {
+		if f := call.Common().StaticCallee(); f != nil && InRepo(f) && f.Blocks != nil && PkgOf(f) == PkgOf(gd) && f.Signature.Results().Len() >= 1 {
+			if n := NamedOf(f.Signature.Results().At(0).Type()); n != nil && n.Obj().Name() == "ValueType" {
+				decFns[f] = true
 			}
-			n := isValType(a.Type())
-			if n == nil {
-				continue
-			}
-			for _, dc := range DomConds(a) {
-				if _, y, ok := eqCond(dc); ok {
-					if k, isC := ConstInt(y); isC {
+		}
+	}
+	for df := range decFns {
+		for _, b := range df.Blocks {
+			for _, in := range b.Instrs {
+				a, ok := in.(*ssa.Alloc)
+				if !ok {
+					continue
+				}
+				n := isValType(a.Type())
+				if n == nil {
+					continue
+				}
+				for _, dc := range DomConds(a) {
+					if _, y, ok := eqCond(dc); ok {
+						if k, isC := ConstInt(y); isC {
+							dec[k] = n.Obj().Name()
+						}
+					}
+				}
+				// `case a, b, c:` – several constants lead into one arm
+				if _, ks, ok := caseConstsInto(b); ok {
+					for _, k := range ks {
 						dec[k] = n.Obj().Name()
 					}
 				}
@@ -347,7 +364,7 @@ func c17IPP(c *Ctx) {
 	// encode side: composite literals elsewhere: alloc of val type with a constant store to field tag
 	enc := map[int64]map[string]string{}
 	for _, fn := range p.FuncsIn(ippRel) {
-		if fn == gd {
+		if decFns[fn] {
 			continue
 		}
 		for _, b := range fn.Blocks {
